@@ -96,6 +96,10 @@ func AnalyzeMetrics15sShortcut(script *logql_parser.LogQLScript) bool {
 			if str != "" || err != nil {
 				return false
 			}
+			// an empty pattern keeps every line only for |= and |~; != "" and !~ "" keep none
+			if ppl.LineFilter.Fn == "!=" || ppl.LineFilter.Fn == "!~" {
+				return false
+			}
 		}
 	}
 	return true
